@@ -5,6 +5,7 @@ import (
 	"fmt"
 	"math/rand"
 	"net/netip"
+	"path/filepath"
 	"time"
 
 	"github.com/DataDog/datadog-traceroute/packets"
@@ -282,6 +283,19 @@ func checkC09() fw.Check {
 					}
 				}
 			}
+			// regression corpus of the coverage-guided target (/verif/corpus/FuzzC09: seeds and inputs the fuzzer found interesting)
+			cases = append(cases, fw.Case{ID: "C09/fuzz-corpus", Run: func(c *fw.Ctx) {
+				sels, datas, names := loadFuzzCorpus(filepath.Join(*fw.FlagVerif, "corpus", "FuzzC09"))
+				for i := range sels {
+					for _, v := range fuzzOne(c.T, sels[i], datas[i]) {
+						c.Violate(v.Property, v.Sig+"/corpus", fmt.Sprintf("corpus entry %s: %s", names[i], v.Msg), map[string]any{"selector": sels[i], "input": fmt.Sprintf("%x", datas[i])})
+					}
+					c.Count("fuzz_corpus_entries", 1)
+				}
+				if len(sels) > 0 {
+					c.Nontrivial("fuzz-corpus")
+				}
+			}})
 			return cases
 		},
 	}
